@@ -42,3 +42,30 @@ C("mako.pyparser:_adjust_lineno",
            ("no-line-known: unchanged", "implies(not ('lineno' in exception_kwargs and exception_kwargs['lineno'] is not None and exc_lineno(exc) is not None), result == exception_kwargs)"),
            ("input-untouched", "exception_kwargs == old(exception_kwargs)")],
   raises={}, props=["C11"], native_skip=True)
+
+# ---- PythonCode: the line offset handed to the parser (C11) -------------------------------------
+from vrf.pyvc.spec import GHOST, CONTRACTS
+GHOST("parse_offset", "Int", "lineno_offset of the most recent pyparser.parse call")
+GHOST("parse_code", "Str", "the code it was given")
+GHOST("parse_calls", "Int", "calls of pyparser.parse")
+CLASS("mako.ast:PythonCode", name="PythonCode", fields={"code": "Any", "declared_identifiers": "Set[Str]", "undeclared_identifiers": "Set[Str]"})
+CLASS("mako.pyparser:FindIdentifiers", name="FindIdents", fields={})
+ASSUME("mako.pyparser:parse", params={"code": "Str", "mode": "Str='exec'", "lineno_offset": "Int=0", "**exception_kwargs": "Star"}, returns="Any",
+       modifies=["G.parse_offset", "G.parse_code", "G.parse_calls"],
+       ensures=[("logged", "G.parse_offset == lineno_offset and G.parse_code == code and G.parse_calls == old(G.parse_calls) + 1")],
+       raises={"*": {"ensures": [("logged", "G.parse_offset == lineno_offset and G.parse_code == code and G.parse_calls == old(G.parse_calls) + 1")]}},
+       note="pyparser.parse re-bases a SyntaxError by lineno_offset (its _adjust_lineno is verified separately)")
+ASSUME("mako.pyparser:FindIdentifiers.__init__", params={"self": "FindIdents", "listener": "Any", "**exception_kwargs": "Star"})
+ASSUME("mako.pyparser:FindIdentifiers.visit", params={"self": "FindIdents", "node": "Any"}, returns="Any", raises={"*": {}})
+
+_LEAD = "count(code[:len(code) - len(code.lstrip())], '\\n')"
+C("mako.ast:PythonCode.__init__",
+  params={"self": "PythonCode", "code": "Str", "lineno_offset": "Int=0", "**exception_kwargs": "Star"},
+  modifies=["ptr(self.code)", "ptr(self.declared_identifiers)", "ptr(self.undeclared_identifiers)", "G.parse_offset", "G.parse_code", "G.parse_calls",
+            "fresh_heap('set:Str')"],
+  ensures=[("parsed-once", "G.parse_calls == old(G.parse_calls) + 1"),
+           ("the-parser-is-told-how-many-lines-precede-the-code", "G.parse_offset == lineno_offset + %s" % _LEAD),
+           ("the-code-parsed-starts-at-its-first-non-blank-character", "G.parse_code == code.lstrip()")],
+  raises={"*": {"ensures": [("the-parser-is-told-how-many-lines-precede-the-code", "implies(G.parse_calls == old(G.parse_calls) + 1, G.parse_offset == lineno_offset + %s)" % _LEAD)]}},
+  props=["C11"], native_skip=True,
+  note="verified for string code (the parse-tree path); an already parsed AST is passed through")
